@@ -214,6 +214,79 @@ def runReqs (s : RS) : List Req → RS × List Ret
     let (s2, xs) := runReqs s1 rs
     (s2, x :: xs)
 
+/-! ### Whose reply?  The hand-over of results with caller identities
+
+The counters of `Model/C10.lean` say how many callers wait; this refinement names them.  `queuedRequests` and
+`queuedResults` are unbuffered: `take` is the rendezvous on the first, `reply` the rendezvous on the second, and the
+receiver of a result is ANY caller that is blocked in `<-queuedResults` at that moment. -/
+
+structure HS where
+  loop : Option Nat            -- the request (= its caller's id) whose closure is running and has not replied yet
+  sending : List Nat           -- callers blocked in `queuedRequests <- f`
+  waiting : List Nat           -- callers blocked in `<-queuedResults`
+  got : List (Nat × Nat)       -- (caller, the request whose result it received)
+deriving Repr, DecidableEq
+
+def HS.init : HS := { loop := none, sending := [], waiting := [], got := [] }
+
+inductive HEv where
+  | call (id : Nat)            -- a caller passes the flag test and starts sending its closure
+  | take (id : Nat)            -- the core loop receives the closure of `id` in its select and runs it
+  | reply (rcv : Nat)          -- the closure's send on `queuedResults` meets the receive of caller `rcv`
+deriving Repr, DecidableEq
+
+def hstep (s : HS) : HEv → Option HS
+  | .call id => some { s with sending := id :: s.sending }
+  | .take id =>
+    if s.loop = none ∧ id ∈ s.sending then
+      some { s with loop := some id, sending := s.sending.erase id, waiting := id :: s.waiting } else none
+  | .reply rcv =>
+    match s.loop with
+    | some o => if rcv ∈ s.waiting then
+        some { s with loop := none, waiting := s.waiting.erase rcv, got := (rcv, o) :: s.got } else none
+    | none => none
+
+def hrun (s : HS) : List HEv → Option HS
+  | [] => some s
+  | e :: es => match hstep s e with
+    | some s' => hrun s' es
+    | none => none
+
+/-- the same with a one-slot buffer on the result channel: the closure's send completes without a receiver
+(`park`), the loop goes on, and a waiting caller later takes whatever is in the slot (`fetch`) -/
+structure HB where
+  loop : Option Nat
+  slot : Option Nat            -- the request whose result sits in the buffer
+  sending : List Nat
+  waiting : List Nat
+  got : List (Nat × Nat)
+deriving Repr, DecidableEq
+
+inductive HBEv where
+  | call (id : Nat) | take (id : Nat) | park | fetch (rcv : Nat)
+deriving Repr, DecidableEq
+
+def hbstep (s : HB) : HBEv → Option HB
+  | .call id => some { s with sending := id :: s.sending }
+  | .take id =>
+    if s.loop = none ∧ id ∈ s.sending then
+      some { s with loop := some id, sending := s.sending.erase id, waiting := id :: s.waiting } else none
+  | .park =>
+    match s.loop, s.slot with
+    | some o, none => some { s with loop := none, slot := some o }
+    | _, _ => none
+  | .fetch rcv =>
+    match s.slot with
+    | some o => if rcv ∈ s.waiting then
+        some { s with slot := none, waiting := s.waiting.erase rcv, got := (rcv, o) :: s.got } else none
+    | none => none
+
+def hbrun (s : HB) : List HBEv → Option HB
+  | [] => some s
+  | e :: es => match hbstep s e with
+    | some s' => hbrun s' es
+    | none => none
+
 /-! ### Line parser -/
 
 open P in
@@ -241,6 +314,7 @@ def parseReq : P Req := do
 inductive Kind where
   | facts
   | hist (nchan : Nat) (reqs : List Req)
+  | pair (nchan : Nat) (reqs : List Req)
   | timing
   | commentFail | dropFail
   | mapPix (nchan npix : Nat)
@@ -256,6 +330,11 @@ def parseKind : P Kind := do
     kw "nchan"; let n ← nat
     kw "ops"; let reqs ← list parseReq
     pure (.hist n reqs)
+  | "pair" => do
+    kw "nchan"; let n ← nat
+    kw "gated"; let _ ← nat
+    kw "reqs"; let reqs ← list parseReq
+    pure (.pair n reqs)
   | "timing" => pure .timing
   | "fault" => do
     let f ← tok
@@ -398,6 +477,23 @@ def runLine (ts : List String) : Verdict :=
                 let rej := (model.zip reqs).any fun (x, q) => x == 1 && (match q with | .block | .stop | .selfEnd | .refresh => false | _ => true)
                 .ok ((tags ++ (if rej then ["rejected"] else []) ++ (if !s.flag || !s.active then ["afterEnd"] else [])).eraseDups)
               | v => v)
+    | .pair nchan reqs, .run r =>
+      -- two callers at once: every caller's reply must be the reply to ITS request
+      if r.rets.contains 2 then .viol "C11:wedge a control request got no reply (watchdog)"
+      else
+        let model := (runReqs (RS.init nchan) reqs).2
+        if r.rets.length != model.length then .diff s!"pair history cut short: {r.rets.length} of {model.length} replies"
+        else match firstDiff model r.rets 0 with
+          | some i =>
+            let j := if i % 2 == 0 then i + 1 else i - 1
+            if r.rets.getD i 9 == model.getD j 9 && r.rets.getD j 9 == model.getD i 9 then
+              .viol s!"C11:reply-not-own request {i} (of two in flight at once) was answered with the other request's result: got {r.rets.getD i 9}, its own closure's result is {model.getD i 9}"
+            else .diff s!"pair reply {i}: impl {r.rets.getD i 9} model {model.getD i 9}"
+          | none =>
+            if r.probe == 1 then .viol "C11:data-stalled the source is active but a block fed after the requests was not processed"
+            else match judgeSkeleton "pair" r with
+              | .ok tags => .ok ((tags ++ ["pair", "rejected", "gated"]).eraseDups)
+              | v => v
     | .commentFail, .run r =>
       if r.rets.contains 2 then .viol "C11:wedge a control request got no reply (watchdog)"
       else if r.probe == 1 then .viol "C11:data-stalled WriteComment with an uncreatable comment file blocked the core loop (second reply nobody reads)"
